@@ -348,7 +348,7 @@ pub fn run_check(engine: &dyn Engine, spec: &CheckSpec) -> i32 {
             continue;
         }
         let key = v.sig_string();
-        if !seen_sig.insert(key) {
+        if !seen_sig.insert(key.clone()) {
             continue;
         }
         // unknown by raw signature: minimise, then look again
@@ -363,7 +363,10 @@ pub fn run_check(engine: &dyn Engine, spec: &CheckSpec) -> i32 {
             *known_hits.entry(f.id.clone()).or_insert(0) += 1;
             continue;
         }
-        if !seen_sig.insert(mv.sig_string()) && execs > 0 {
+        // a minimised signature equal to one already reported is a duplicate; the raw key itself
+        // (minimisation left the signature unchanged) is not
+        let msig = mv.sig_string();
+        if msig != key && !seen_sig.insert(msig) {
             continue;
         }
         // must replay in a fresh process before it is printed
